@@ -92,6 +92,9 @@ PointwiseBinary == {"add", "sub", "mul", "truediv", "max", "min", "logaddexp", "
                     "floordiv", "mod", "eq", "ne", "lt", "le", "gt", "ge",
                     "and", "or", "xor", "safesub", "safediv"}
 ArrayReductions == {"sum", "prod", "amax", "amin", "all", "any", "logsumexp"}
+\* reductions over a TUPLE of two axes: name sum2 / amax2, params <<axis1, axis2, keepdims>>
+ArrayReductions2 == {"sum2", "amax2"}
+Red2Base(n) == IF n = "sum2" THEN "sum" ELSE "amax"
 \* mean / var / std over the output shape: params <<axis, keepdims, ddof>>; always real-valued
 ArrayStats == {"mean", "var", "std"}
 
@@ -102,6 +105,11 @@ SliceShape(sh, parts) ==
   IF parts = <<>> \/ sh = <<>> THEN sh
   ELSE IF Head(parts).k = "int" THEN SliceShape(Tail(sh), Tail(parts))
   ELSE <<Head(parts).n>> \o SliceShape(Tail(sh), Tail(parts))
+
+\* the sequence sh without its (0-based) positions n1 and n2
+SelectSeqIdx(sh, n1, n2) ==
+  LET keepIdx == SelectSeq([j \in 1..Len(sh) |-> j], LAMBDA j : j # n1 + 1 /\ j # n2 + 1)
+  IN [k \in 1..Len(keepIdx) |-> sh[keepIdx[k]]]
 
 OutDom1(op, d) ==
   CASE op.n \in {"exp", "log", "log1p", "expm1", "sqrt", "reciprocal"} -> Dom(0, d.sh)
@@ -117,6 +125,14 @@ OutDom1(op, d) ==
                     ELSE (IF keep THEN [j \in 1..nd |-> IF j = ax + 1 THEN 1 ELSE d.sh[j]]
                           ELSE DropAt(d.sh, ax + 1))
           IN Dom(IF op.n \in {"all", "any"} THEN 2 ELSE d.dt, sh))
+    [] op.n \in ArrayReductions2 ->
+         (LET nd == Len(d.sh)
+              n1 == IF op.p[1] < 0 THEN op.p[1] + nd ELSE op.p[1]
+              n2 == IF op.p[2] < 0 THEN op.p[2] + nd ELSE op.p[2]
+              keep == op.p[3] = 1
+              sh == IF keep THEN [j \in 1..nd |-> IF j = n1 + 1 \/ j = n2 + 1 THEN 1 ELSE d.sh[j]]
+                    ELSE SelectSeqIdx(d.sh, n1, n2)
+          IN Dom(d.dt, sh))
     [] op.n \in ArrayStats ->
          (LET axis == op.p[1]  keep == op.p[2] = 1
               nd == Len(d.sh)
@@ -342,6 +358,7 @@ ApplyUn(op, a) ==
     [] op.n \in PointwiseUnary -> Pointwise1(op.n, a)
     [] op.n \in ArrayReductions -> ReduceArr(op.n, a, op.p[1], op.p[2] = 1)
     [] op.n \in ArrayStats -> StatArr(op.n, a, op.p[1], op.p[2] = 1, op.p[3])
+    [] op.n \in ArrayReductions2 -> ReduceArr2(Red2Base(op.n), a, op.p[1], op.p[2], op.p[3] = 1)
     [] op.n = "reshape" -> Reshape(a, op.p)
     [] op.n = "getslice" -> GetSlice(a, op.p, 0)
     [] OTHER -> UArr
